@@ -42,22 +42,23 @@ type Solver struct {
 	BadModels       int
 	FallbackSolved  int
 	// statistics
-	Queries    int
-	Unknowns   int
-	Errors     int
-	Time       time.Duration
-	LastErr    string
-	TimeoutMs  int
-	QuickMs    int
-	FeasMs     int
-	Stage2     int
-	quickFails int
-	skipQuick  int
-	Log        io.Writer
+	Queries     int
+	Unknowns    int
+	Errors      int
+	Time        time.Duration
+	LastErr     string
+	TimeoutMs   int
+	QuickMs     int
+	FeasMs      int
+	Stage2      int
+	quickFails  int
+	lastTimeout int
+	skipQuick   int
+	Log         io.Writer
 }
 
 func NewSolver(kind string, timeoutMs int) (*Solver, error) {
-	s := &Solver{Kind: kind, TimeoutMs: timeoutMs, QuickMs: 100, FeasMs: 2000}
+	s := &Solver{Kind: kind, TimeoutMs: timeoutMs, QuickMs: 250, FeasMs: 4000}
 	if err := s.start(); err != nil {
 		return nil, err
 	}
@@ -103,6 +104,7 @@ func (s *Solver) start() error {
 		}
 	}()
 	s.defined = map[int32]bool{}
+	s.lastTimeout = 0
 	s.depth = 0
 	s.frames = [][]*Term{nil}
 	s.send("(set-option :print-success false)")
@@ -251,37 +253,19 @@ func (s *Solver) rebuild() {
 	}
 }
 
-// Check decides the current assertion stack. For z3 it is two-staged: a quick
-// incremental (check-sat) and, if that is inconclusive, the bit-blasting
-// tactic on the same stack (the incremental core is weak on modular arithmetic).
+// Check decides the current assertion stack with a plain incremental
+// (check-sat). (An earlier version followed an inconclusive answer with
+// (check-sat-using <bit-blasting tactic>) on the same process; z3 4.8.12 was
+// observed to return models violating scoped assertions that way, so hard
+// queries now go to a fresh stand-alone process instead - see oneShot.)
 func (s *Solver) Check() Result {
 	t0 := time.Now()
 	s.Queries++
-	var res Result
-	if s.Kind == "cvc5" {
-		res = s.checkCmd("(check-sat)", s.TimeoutMs)
-	} else {
-		res = Unknown
-		if s.skipQuick > 0 {
-			s.skipQuick--
-		} else {
-			s.send(fmt.Sprintf("(set-option :timeout %d)", s.QuickMs))
-			res = s.checkCmd("(check-sat)", s.QuickMs)
-			if res == Unknown {
-				s.quickFails++
-				if s.quickFails >= 8 {
-					s.skipQuick = 10
-				}
-			} else {
-				s.quickFails = 0
-			}
-		}
-		if res == Unknown && s.cmd != nil {
-			s.Stage2++
-			s.send(fmt.Sprintf("(set-option :timeout %d)", s.TimeoutMs))
-			res = s.checkCmd("(check-sat-using (then simplify solve-eqs bit-blast sat))", s.TimeoutMs)
-		}
+	if s.Kind != "cvc5" && s.lastTimeout != s.TimeoutMs {
+		s.send(fmt.Sprintf("(set-option :timeout %d)", s.TimeoutMs))
+		s.lastTimeout = s.TimeoutMs
 	}
+	res := s.checkCmd("(check-sat)", s.TimeoutMs)
 	if res == Unknown {
 		s.Unknowns++
 	}
@@ -342,10 +326,7 @@ func (s *Solver) CheckAssuming(t *Term) Result {
 // answer is returned as such and the caller treats the literal as feasible.
 func (s *Solver) CheckFeasible(t *Term, syms []*Term) (Result, map[string]uint64) {
 	saved := s.TimeoutMs
-	if s.FeasMs > 0 && s.FeasMs < saved {
-		s.TimeoutMs = s.FeasMs
-	}
-	defer func() { s.TimeoutMs = saved }()
+	s.TimeoutMs = s.QuickMs
 	s.Push()
 	s.Assert(t)
 	r := s.Check()
@@ -354,9 +335,23 @@ func (s *Solver) CheckFeasible(t *Term, syms []*Term) (Result, map[string]uint64
 		m = s.Model(syms)
 	}
 	s.Pop(1)
+	s.TimeoutMs = saved
 	if r == Unknown {
 		s.Unknowns--
+		// stand-alone retry (different strategy: full preprocessing + bit-blasting)
+		s.Stage2++
+		r2, m2 := s.oneShotWith(t, syms, []string{s.FallbackKinds[0]}, s.FeasMs/1000+1)
+		if r2 == Unsat {
+			return Unsat, nil
+		}
+		if r2 == Sat {
+			if syms != nil && !s.validModel(m2, t) {
+				m2 = nil
+			}
+			return Sat, m2
+		}
 		s.FeasUnknown++
+		return Unknown, nil
 	}
 	if r == Sat && m != nil && !s.validModel(m, t) {
 		s.BadModels++
@@ -372,6 +367,9 @@ func (s *Solver) validModel(m map[string]uint64, extra *Term) bool {
 	for _, fr := range s.frames {
 		for _, t := range fr {
 			if Eval(t, m, memo) == 0 {
+				if s.Log != nil {
+					fmt.Fprintf(s.Log, "; invalid model: frame term t%d = %s evaluates to false under %v\n", t.ID, t.String(), m)
+				}
 				return false
 			}
 		}
@@ -509,14 +507,18 @@ func (s *Solver) queryText(extra *Term, syms []*Term) string {
 }
 
 func (s *Solver) oneShot(extra *Term, syms []*Term) (Result, map[string]uint64) {
-	t0 := time.Now()
-	defer func() { s.Time += time.Since(t0) }()
-	text := s.queryText(extra, syms)
 	to := s.FallbackTimeout
 	if to <= 0 {
 		to = 60
 	}
-	for _, kind := range s.FallbackKinds {
+	return s.oneShotWith(extra, syms, s.FallbackKinds, to)
+}
+
+func (s *Solver) oneShotWith(extra *Term, syms []*Term, kinds []string, to int) (Result, map[string]uint64) {
+	t0 := time.Now()
+	defer func() { s.Time += time.Since(t0) }()
+	text := s.queryText(extra, syms)
+	for _, kind := range kinds {
 		var cmd *exec.Cmd
 		switch kind {
 		case "z3", "z3-new":
